@@ -323,6 +323,8 @@ class C18(Check):
         from lark.indenter import DedentError, PythonIndenter
         from lark.exceptions import UnexpectedInput, UnexpectedCharacters, LarkError
         out = Outcome()
+        for name in core.reset_lark_process_state():
+            out.count('probe:process-state-left-by-an-earlier-run:' + name)
         driver = plan['driver']
         log = []
         if driver == 'direct':
